@@ -123,4 +123,4 @@ def configs(tier, seed):
     return out
 
 
-CONFIG_BUDGET_S = {"quick": 900, "thorough": 3600}
+CONFIG_BUDGET_S = {"quick": 900, "thorough": 1800}
